@@ -84,10 +84,12 @@ def effects(op: dict) -> list:
     prefix (what may legitimately have been applied before the rejection)."""
     k = op["op"]
     if k == "add_node":
-        return [("node", op["n"])]
+        return [("node", op["n"])] if path_kind(op["n"]) == "node" else []
     if k == "add_nodes":
         return [("node", n) for n in op["ns"]]
     if k == "add_link":
+        if path_kind(op["v"]) != "node":  # ill-typed downstream node: at most the upstream node is inserted
+            return [("node", op["u"])] if path_kind(op["u"]) == "node" else []
         return [("edge", op["u"], op["l"], op["v"])]
     if k == "add_links":
         return [("edge", u, l, v) for u, l, v in op["items"]]
